@@ -96,3 +96,18 @@ $(B)/amalg/C18_child: $(B)/amalg/C18_child.o $(B)/amalg/ada.o
 	$(CXX) $(FLAGS_plain) $^ -o $@
 C18_CHILDREN := $(foreach c,$(C18_CFGS) amalg,$(B)/$(c)/C18_child)
 c18: $(C18_CHILDREN)
+
+# ---- replay-only build without sanitizers, for the valgrind tier of C02 (uninitialised reads)
+VG_FLAGS := -O1 -gdwarf-4 -DADA_DEVELOPMENT_CHECKS=0 -DVF_NO_FUZZER
+$(B)/vg:
+	mkdir -p $@
+$(B)/vg/ada.o: $(REPO)/src/ada.cpp | $(B)/vg
+	$(CXX) $(STD) $(VG_FLAGS) $(DEFS) $(INC) -MMD -MP -c $< -o $@
+$(B)/vg/harness.o: engine/harness.cpp | $(B)/vg
+	$(CXX) $(STD) $(VG_FLAGS) $(DEFS) $(INC) $(WARN) -MMD -MP -c $< -o $@
+$(B)/vg/ref_%.o: ref/%.cpp | $(B)/vg
+	$(CXX) $(STD) $(VG_FLAGS) -Iref $(WARN) -MMD -MP -c $< -o $@
+$(B)/vg/C02.o: props/C02.cpp | $(B)/vg
+	$(CXX) $(STD) $(VG_FLAGS) $(DEFS) $(INC) $(WARN) -MMD -MP -c $< -o $@
+$(B)/vg/C02: $(B)/vg/C02.o $(B)/vg/harness.o $(B)/vg/ada.o $(patsubst ref/%.cpp,$(B)/vg/ref_%.o,$(REF_SRCS))
+	$(CXX) $(VG_FLAGS) $^ -lrapidcheck -lpthread -o $@
